@@ -205,8 +205,17 @@ def r19_2(ctx, rr):
     oth = ("var", a.params[1]["name"], a.params[1]["id"])
     Ta = Termizer(F, a)
     rr.instances += 1
-    okc = any(n.get("k") == "AssignOp" and n["op"] == "^=" and Ta.term(n["l"]) == ("field", slf, "c") and Ta.term(n["r"]) == ("field", oth, "c") for n in walk(a.body))
-    rr.check(okc, "add:constants-xored", "Modulo2Equation::add must XOR the constant terms (`self.c ^= other.c`)", a.span)
+    xors = [n for n in walk(a.body) if n.get("k") == "AssignOp" and n["op"] == "^=" and Ta.term(n["l"]) == ("field", slf, "c") and Ta.term(n["r"]) == ("field", oth, "c")]
+    # on every path: exactly one such statement, at the top level of the body, and no way out of the function before it
+    top = a.body["stmts"] + ([a.body["expr"]] if "expr" in a.body else [])
+    at_top = [st for st in top if xors and any(x is xors[0] for x in walk(st)) and not any(y.get("k") in ("If", "Match", "Loop", "Closure") and any(x is xors[0] for x in walk(y)) for y in walk(st))]
+    early = [n for n in walk(a.body) if n.get("k") == "Ret"]
+    rr.check(len(xors) == 1 and len(at_top) == 1 and not early, "add:constants-xored", "Modulo2Equation::add must XOR the constant terms (`self.c ^= other.c`) exactly once on every path (found %d such statements, %d early returns)" % (len(xors), len(early)), a.span)
+    # likewise the variables: the merged vector replaces self.vars on every path (one unconditional assignment)
+    rr.instances += 1
+    vsets = [n for n in walk(a.body) if n.get("k") == "Assign" and Ta.term(n["l"]) == ("field", slf, "vars")]
+    vmut = [n for n in walk(a.body) if n.get("k") == "MethodCall" and n["name"] in ("clear", "truncate", "push", "retain", "drain", "extend_from_slice") and Ta.term(n["recv"]) == ("field", slf, "vars")]
+    rr.check(len(vsets) == 1 and not vmut, "add:vars-replaced-by-merge", "Modulo2Equation::add must replace self.vars by the merged list once, unconditionally, and not edit it otherwise (found %d assignments, %d in-place edits)" % (len(vsets), len(vmut)), a.span)
     rr.instances += 1
     cap = [n for n in walk(a.body) if n.get("k") == "Call" and cname(F, n).endswith("with_capacity")]
     okcap = False
@@ -312,3 +321,92 @@ def r19_4(ctx, rr):
             if "^" in r and "eval_vars" in r and ".c" in r:
                 oka = True
     rr.check(oka, "lazy:pivot-value", "lazy_gaussian_elimination: each pivot variable is set to `c ^ eval_vars(vars, solution)` of its own row after the dense solve", b.span)
+
+
+@rule("R19.5", props=["C19"], floor=6, title="lazy phase bookkeeping: only variables of weight 0 are skipped; activating a variable and solving a pivot lower each touched equation's priority by one and enqueue it exactly at priority 1")
+def r19_5(ctx, rr):
+    """The weights count the unsolved equations a variable occurs in and the priorities the idle variables of an
+    equation. The tests on them are exact: `weight[var] == 0` (skip), `priority[eq] == 1` (ready),
+    `priority[first] == 0` (fully eliminated); the updates are `-= 1` and `weight[pivot] = 0`."""
+    F = ctx.F()
+    b = F.one(r"^utils::mod2_sys::Modulo2System::<W>::lazy_gaussian_elimination$")
+    T = Termizer(F, b)
+
+    def is_tab(e, name_hint=None):
+        # an element of a local table: `t[i]`
+        return e.get("k") == "Index" and e["e"].get("k") == "Path" and e["e"].get("res") == "local"
+
+    # identify the tables by what setup() returns: (var_to_eqs, weight, priority)
+    ids = {}
+    for n in walk(b.body):
+        if n.get("k") in ("Assign", "LetStmt"):
+            pat = n.get("pat") or n.get("l")
+            init = n.get("init") or n.get("r")
+            if init is not None and init.get("k") == "MethodCall" and init["name"] == "setup":
+                elems = pat.get("ps") or pat.get("es") or []
+                if len(elems) == 3:
+                    for nm, e in zip(("var_to_eqs", "weight", "priority"), elems):
+                        ids[nm] = e.get("id")
+    # a destructuring assignment `(a, b, c) = f()` is lowered to `let (t0, t1, t2) = f(); a = t0; b = t1; c = t2`
+    fwd = {}
+    for n in walk(b.body):
+        if n.get("k") == "Assign" and n["l"].get("k") == "Path" and n["r"].get("k") == "Path" and n["r"].get("res") == "local":
+            fwd[n["r"]["id"]] = n["l"].get("id")
+    ids = {k: fwd.get(v, v) for k, v in ids.items()}
+    if len(ids) != 3 or None in ids.values():
+        raise AnchorMissing("lazy_gaussian_elimination: could not identify the three tables returned by setup()")
+    W_, P_ = ids["weight"], ids["priority"]
+
+    def tab_id(e):
+        return e["e"].get("id") if is_tab(e) else None
+    # (1) skip loop: while weight[var] == 0
+    loops = [n for n in walk(b.body) if n.get("k") == "Loop" and n.get("src") == "While"]
+    skip = []
+    for lp in loops:
+        st = lp["body"].get("expr") or (lp["body"]["stmts"][-1] if lp["body"]["stmts"] else None)
+        if st is not None and st.get("k") == "If" and st["c"].get("k") == "Binary" and tab_id(st["c"]["l"]) == W_:
+            skip.append(st["c"])
+    rr.instances += 1
+    ok = len(skip) == 1 and skip[0]["op"] == "==" and skip[0]["r"].get("k") == "Lit" and skip[0]["r"].get("v") == "0"
+    rr.check(ok, "lazy:skip-only-weight-0", "lazy_gaussian_elimination: when no equation is ready, the next variable to activate is the first whose weight is not 0 (`while weight[var] == 0 { pop }`): a variable of weight 1 still occurs in an unsolved equation and must be activated (found %s)" % [show(F, c) for c in skip], F.loc(skip[0]) if skip else b.span)
+    # (2) every update of a priority is `-= 1`, followed in the same block by `if priority[..] == 1 { push }`
+    upd = [n for n in walk(b.body) if n.get("k") == "AssignOp" and tab_id(n["l"]) == P_]
+    pm = {id(n): ps for n, ps in walk_with_parents(b.body)}
+    if len(upd) < 2:
+        raise AnchorMissing("lazy_gaussian_elimination: expected two updates of the priorities (activation and pivot elimination)")
+    enqueue_ifs = []
+    for u in upd:
+        rr.instances += 1
+        okd = u["op"] == "-=" and u["r"].get("k") == "Lit" and u["r"].get("v") == "1"
+        blk = [p for p in pm[id(u)] if p.get("k") == "Block"][-1]
+        sts = blk["stmts"] + ([blk["expr"]] if "expr" in blk else [])
+        pos = [i for i, st in enumerate(sts) if any(x is u for x in walk(st))][0]
+        nxt = sts[pos + 1] if pos + 1 < len(sts) else None
+        while nxt is not None and nxt.get("k") == "Block" and not nxt["stmts"] and "expr" in nxt:
+            nxt = nxt["expr"]
+        okn = nxt is not None and nxt.get("k") == "If" and nxt["c"].get("k") == "Binary" and nxt["c"]["op"] == "==" and tab_id(nxt["c"]["l"]) == P_ and nxt["c"]["r"].get("v") == "1" and T.term(nxt["c"]["l"]["i"]) == T.term(u["l"]["i"]) and any(x.get("k") == "MethodCall" and x["name"] == "push" for x in walk(nxt["th"])) and "el" not in nxt
+        if nxt is not None and nxt.get("k") == "If":
+            enqueue_ifs.append(nxt)
+        rr.check(okd and okn, "lazy:priority-update", "lazy_gaussian_elimination: a priority is lowered by exactly one and its equation is enqueued exactly when the priority becomes 1 (`priority[eq] -= 1; if priority[eq] == 1 { equation_list.push(eq) }`); found `%s` followed by `%s`" % (show(F, u)[:60], show(F, nxt["c"])[:60] if nxt is not None and nxt.get("k") == "If" else None), F.loc(u))
+    # (3) a solved pivot no longer counts: weight[pivot] = 0, and only there is a weight written
+    wr = [n for n in walk(b.body) if n.get("k") in ("Assign", "AssignOp") and tab_id(n["l"]) == W_]
+    rr.instances += 1
+    rr.check(len(wr) == 1 and wr[0]["k"] == "Assign" and wr[0]["r"].get("v") == "0", "lazy:pivot-weight-cleared", "lazy_gaussian_elimination: the weight of a pivot is set to 0 when its equation is solved, and weights are not written elsewhere (found %s)" % [show(F, x)[:60] for x in wr], b.span)
+    # (4) the dispatch on the popped equation: priority == 0 / == 1
+    disp = [n for n in walk(b.body) if n.get("k") == "If" and n["c"].get("k") == "Binary" and n["c"]["op"] == "==" and tab_id(n["c"]["l"]) == P_ and n["c"]["r"].get("k") == "Lit" and not any(n is e for e in enqueue_ifs)]
+    vals = sorted(n["c"]["r"]["v"] for n in disp)
+    rr.instances += 1
+    rr.check(vals[:2] == ["0", "1"], "lazy:dispatch-on-priority", "lazy_gaussian_elimination: a popped equation is classified by `priority == 0` (fully eliminated) and `priority == 1` (one idle variable: pivot); found tests on %s" % vals, b.span)
+    # (5) the ready list is seeded with the equations of priority <= 1
+    rr.instances += 1
+    seeds = [n for n in walk(b.body) if n.get("k") == "MethodCall" and n["name"] == "filter" and any(x.get("k") == "Binary" and tab_id(x["l"]) == P_ for x in walk(n["args"][0]))]
+    oks = False
+    for f in seeds:
+        for x in walk(f["args"][0]):
+            if x.get("k") == "Binary" and tab_id(x["l"]) == P_:
+                oks = (x["op"] == "<=" and x["r"].get("v") == "1") or (x["op"] == "<" and x["r"].get("v") == "2")
+    rr.check(oks, "lazy:initial-ready-list", "lazy_gaussian_elimination: the ready list starts with every equation of priority <= 1", b.span)
+    # (6) activation clears the idle flag of the chosen variable
+    rr.instances += 1
+    oki = any(n.get("k") == "MethodCall" and n["name"] == "set" and len(n["args"]) == 2 and n["args"][1].get("k") == "Lit" and n["args"][1].get("v") in (False, "false") for n in walk(b.body))
+    rr.check(oki, "lazy:activation-clears-idle", "lazy_gaussian_elimination: activating a variable clears its idle flag (`idle.set(var, false)`)", b.span)
